@@ -68,6 +68,10 @@ func (e *Embed) GenerateOutput(textOnly bool) string {
 	// TODO: Maybe just to be save we should sanitize it.
 	tagName := dom.TagName(e.Element)
 	if tagName == "blockquote" || tagName == "iframe" {
+		for _, node := range dom.QuerySelectorAll(e.Element, "script,style") {
+			node.Parent.RemoveChild(node)
+		}
+
 		domutil.StripAttributes(e.Element)
 		dom.AppendChild(embed, e.Element)
 	}
